@@ -5,6 +5,6 @@ CONSTANTS
 INIT TInit
 NEXT TNext
 CONSTRAINT Track
-INVARIANTS AtMostOnce OnlySubmittedRun LockNotHeldWhileRunning LockConsistent NeverPoisoned NoLossNoDup NoPrematureExit
+INVARIANTS AtMostOnce OnlySubmittedRun LockNotHeldWhileRunning LockConsistent NeverPoisoned NoLossNoDup NoPrematureExit SingleShutdown
 POSTCONDITION Accepted
 CHECK_DEADLOCK FALSE
